@@ -551,9 +551,8 @@ class Mitochondria:
                         if kw.arg is None:
                             raise ValueError("Keyword unpacking (**) not supported")
                         kwargs[kw.arg] = self._compute_node(kw.value)
-                    if callable(func):
-                        return func(*args, **kwargs)
-                    return func  # Constants like pi, e
+                    # Calling a constant (pi, e, ...) fails with TypeError, as it does in Python
+                    return func(*args, **kwargs)
                 raise ValueError(f"Unknown function: {func_name}")
             raise ValueError("Complex function calls not supported")
 
